@@ -43,6 +43,10 @@ pub fn canon_a32(w: u32) -> Option<String> {
     if w == 0xE320F000 {
         return Some("nop".into());
     }
+    if w & 0x0F000000 == 0x0A000000 {
+        let imm = (((w & 0x00FF_FFFF) << 8) as i32 >> 6) as i64; // sign-extended imm24 << 2
+        return Some(format!("b #{}", imm));
+    }
     if w & 0x0FFF0FF0 == 0x01A00000 {
         return Some(format!("mov r{}, r{}", (w >> 12) & 15, w & 15));
     }
@@ -92,7 +96,21 @@ pub fn canon_t32(hw1: u16, hw2: u16) -> Option<String> {
     if hw1 == 0xF3AF && hw2 == 0x8000 {
         return Some("nop.w".into());
     }
+    if hw1 & 0xF800 == 0xF000 && hw2 & 0xD000 == 0x9000 {
+        return Some(format!("b.w #{}", bw_offset(hw1, hw2)));
+    }
     None
+}
+
+/// offset of the T4 encoding of B.W
+fn bw_offset(hw1: u16, hw2: u16) -> i32 {
+    let s = ((hw1 >> 10) & 1) as u32;
+    let j1 = ((hw2 >> 13) & 1) as u32;
+    let j2 = ((hw2 >> 11) & 1) as u32;
+    let i1 = !(j1 ^ s) & 1;
+    let i2 = !(j2 ^ s) & 1;
+    let imm = (s << 24) | (i1 << 23) | (i2 << 22) | (((hw1 & 0x3FF) as u32) << 12) | (((hw2 & 0x7FF) as u32) << 1);
+    ((imm << 7) as i32) >> 7
 }
 
 fn is_32bit_thumb(hw1: u16) -> bool {
@@ -147,6 +165,12 @@ pub fn walk(entry: u32, thumb: bool, read8: &dyn Fn(u32) -> u8) -> Walk {
                 pc = pc.wrapping_add(4);
                 continue;
             }
+            if w & 0x0F000000 == 0x0A000000 {
+                // B: PC-relative, never changes the instruction-set state
+                let imm = ((w & 0x00FF_FFFF) << 8) as i32 >> 6;
+                let dest = pc.wrapping_add(8).wrapping_add(imm as u32);
+                return Walk { end: End::Arrived { addr: dest, thumb: false }, written, regs, path, literal };
+            }
             if w & 0x0FFF0FF0 == 0x01A00000 {
                 let rd = ((w >> 12) & 15) as u8;
                 let rm = (w & 15) as u8;
@@ -183,6 +207,10 @@ pub fn walk(entry: u32, thumb: bool, read8: &dyn Fn(u32) -> u8) -> Walk {
                     None => return Walk { end: End::Unknown { at: pc, enc }, written, regs, path, literal },
                 };
                 path.push((pc, enc, 2, text));
+                if h1 & 0xF800 == 0xF000 && h2 & 0xD000 == 0x9000 {
+                    let dest = pc.wrapping_add(4).wrapping_add(bw_offset(h1, h2) as u32);
+                    return Walk { end: End::Arrived { addr: dest, thumb: true }, written, regs, path, literal };
+                }
                 if h1 & 0xFF7F == 0xF85F {
                     let u = (h1 >> 7) & 1;
                     let rt = (h2 >> 12) as u8;
